@@ -14,8 +14,14 @@ C01-1 k_decimal_try_add_digit
 C01-2 e_owned_load_then_parse
 C02-1 b_skip_number_w30
 C02-2 s_float_fast_bounds
+C02-3 b_skip_number_w30
+C02-4 k_is_whitespace
+C02-5 k_string_block
 C03-1 k_unicode_inplace
 C03-2 m_number_visit_raw_n7
+C03-3 m_number_visit_raw_n7
+C03-4 k_meta_roundtrip_idx_lt_2p29
+C03-5 k_number_classification
 C05-1 u_format_string_n3
 C05-2 w_buffered_writer_short_writes
 C05-3 k_string_tables
@@ -33,8 +39,14 @@ C08-4 u_skip_number_n5
 C08-5 s_float_fast_bounds
 C09-1 k_unicode_copying
 C09-2 k_string_block
+C09-3 k_string_block
+C09-4 k_unicode_inplace
+C09-5 b_skip_string_unchecked_w27
 C10-1 b_skip_string_unchecked_w27
 C10-2 b_skip_number_w30
+C10-3 k_block_step_head_arr
+C10-4 b_skip_string_unchecked_w27
+C10-5 u_skip_string_unchecked_n8
 C12-1 b_skip_string_unchecked_w27
 C12-2 u_skip_string_n8
 C13-1 u_owned_mut_probe_keeps_raw
@@ -44,6 +56,9 @@ C13-4 u_owned_get_mut_probe_keeps_raw
 C13-5 e_lazy_parse_from
 C14-1 b_skip_number_w30
 C14-2 u_skip_string_n8
+C14-3 m_get_array_checked_n6
+C14-4 m_entry_lazy_n7
+C14-5 b_skip_number_w30
 C17-1 k_simd_i8x32
 C17-2 x_arch_nonspace_native
 C18-1 e_lazy_parse_from_frees
